@@ -112,11 +112,11 @@ def run_enums(acc):
             except Exception as e:  # noqa
                 acc.violation("roundtrip-raises:%s" % name, "%s.%s: %r" % (name, alias, e), {"enum": name, "member": alias})
                 continue
-            if back is not mbr and back.xml_value == tok:
+            if back is not mbr and type(back) is E and back.xml_value == tok:
                 acc.count("roundtrip_differs_as_consequence_of_duplicate_token")  # reported once, under duplicate-token
             elif back is not mbr:
                 acc.violation(
-                    "roundtrip:%s:%s" % (name, tok), "%s: from_xml(to_xml(%s)) is %s" % (name, mbr.name, back.name), {"enum": name, "member": alias}
+                    "roundtrip:%s:%s" % (name, tok), "%s: from_xml(to_xml(%s)) is %s.%s" % (name, mbr.name, type(back).__name__, getattr(back, "name", back)), {"enum": name, "member": alias}
                 )
             if E.to_xml(mbr) != tok:
                 acc.violation("to_xml:%s:%s" % (name, tok), "%s.to_xml(%s) != its xml_value" % (name, mbr.name), {"enum": name, "member": alias})
